@@ -64,6 +64,9 @@ def discover(crate):
             "unwind": int(unwind.group(1)) if unwind else None,
             "bounded": (re.search(r"BOUNDED:?\s*([^\n]*)", attrs).group(1).strip() or True) if "BOUNDED" in attrs else False,
             "thorough_only": "THOROUGH" in attrs,
+            # OPTIONAL: a counterexample finder on code CBMC may not finish on; a timeout is
+            # reported as "not finished", not as undecided
+            "optional": "OPTIONAL" in attrs,
             "body": body,
             "stubs": re.findall(r"kani::stub(?:_verified)?\(([^)]*)\)", attrs),
         }
